@@ -26,6 +26,7 @@ var specs = []Spec{
 	{ID: "C06", Level: "exploration", MinDistinct: 50, Engines: []Engine{
 		{Name: "seq", Pkg: "./mon/c06", Procs: 1},
 		{Name: "par", Pkg: "./mon/c06", Race: true, Env: []string{"VERIF_MODE=par"}, DeathSig: "C06/par:process-died"},
+		{Name: "coop", Pkg: "./mon/chainco", Env: []string{"VERIF_PROP=C06"}},
 	}},
 	{ID: "C07", Level: "exploration", MinDistinct: 50, Engines: []Engine{
 		{Name: "seq", Pkg: "./mon/c07", Procs: 1},
